@@ -1,12 +1,11 @@
 use super::allocator::BlockStateTracker;
 use super::reader::ColReaderInfo;
 use super::{ReadConsistency, Walrus};
-use crate::wal::block::{Block, Entry, Metadata};
+use crate::wal::block::{Block, Entry, Metadata, decode_metadata};
 use crate::wal::config::{MAX_BATCH_ENTRIES, PREFIX_META_SIZE, checksum64, debug_print};
 use std::io;
 use std::sync::{Arc, RwLock};
 
-use rkyv::{AlignedVec, Deserialize};
 use tracing::info;
 
 #[cfg(target_os = "linux")]
@@ -578,12 +577,9 @@ impl Walrus {
                     }
 
                     // Decode metadata to get read_size
-                    let mut aligned = AlignedVec::with_capacity(meta_len);
-                    aligned.extend_from_slice(&meta_buf[2..2 + meta_len]);
-                    let archived = unsafe { rkyv::archived_root::<Metadata>(&aligned[..]) };
-                    let meta: Metadata = match archived.deserialize(&mut rkyv::Infallible) {
-                        Ok(m) => m,
-                        Err(_) => {
+                    let meta: Metadata = match decode_metadata(&meta_buf[2..2 + meta_len]) {
+                        Some(m) => m,
+                        None => {
                             info!(
                                 "batch_read_for_topic: (stateless) breaking meta deserialize error"
                             );
@@ -780,12 +776,8 @@ impl Walrus {
                         .read((block.offset + cur_off) as usize, &mut meta_buf);
                     let meta_len = (meta_buf[0] as usize) | ((meta_buf[1] as usize) << 8);
                     if meta_len > 0 && meta_len <= PREFIX_META_SIZE - 2 {
-                        let mut aligned_peek_meta = AlignedVec::with_capacity(meta_len);
-                        aligned_peek_meta.extend_from_slice(&meta_buf[2..2 + meta_len]);
-                        let archived_peek_meta =
-                            unsafe { rkyv::archived_root::<Metadata>(&aligned_peek_meta[..]) };
-                        let meta_res: Result<Metadata, _> =
-                            archived_peek_meta.deserialize(&mut rkyv::Infallible);
+                        let meta_res: Result<Metadata, ()> =
+                            decode_metadata(&meta_buf[2..2 + meta_len]).ok_or(());
                         match meta_res {
                             Ok(meta) => {
                                 let size1 = meta.read_size;
@@ -805,19 +797,13 @@ impl Walrus {
                                         let meta_len2 = (meta_buf2[0] as usize)
                                             | ((meta_buf2[1] as usize) << 8);
                                         if meta_len2 > 0 && meta_len2 <= PREFIX_META_SIZE - 2 {
-                                            let mut aligned2 = AlignedVec::with_capacity(meta_len2);
-                                            aligned2
-                                                .extend_from_slice(&meta_buf2[2..2 + meta_len2]);
-                                            let archived2 = unsafe {
-                                                rkyv::archived_root::<Metadata>(&aligned2[..])
-                                            };
-                                            let meta2_res: Result<Metadata, _> =
-                                                archived2.deserialize(&mut rkyv::Infallible);
-                                            let meta2 = meta2_res
-                                                .expect("infallible metadata deserialize");
-                                            let size2 = meta2.read_size;
-                                            let required2 = (PREFIX_META_SIZE + size2) as u64;
-                                            final_required = required1 + required2;
+                                            if let Some(meta2) =
+                                                decode_metadata(&meta_buf2[2..2 + meta_len2])
+                                            {
+                                                let size2 = meta2.read_size;
+                                                let required2 = (PREFIX_META_SIZE + size2) as u64;
+                                                final_required = required1 + required2;
+                                            }
                                         }
                                     }
                                 }
@@ -892,12 +878,9 @@ impl Walrus {
                             break;
                         }
 
-                        let mut aligned = AlignedVec::with_capacity(meta_len);
-                        aligned.extend_from_slice(&meta_buf[2..2 + meta_len]);
-                        let archived = unsafe { rkyv::archived_root::<Metadata>(&aligned[..]) };
-                        let meta: Metadata = match archived.deserialize(&mut rkyv::Infallible) {
-                            Ok(m) => m,
-                            Err(_) => break,
+                        let meta: Metadata = match decode_metadata(&meta_buf[2..2 + meta_len]) {
+                            Some(m) => m,
+                            None => break,
                         };
                         let data_size = meta.read_size;
                         let entry_total = (PREFIX_META_SIZE + data_size) as u64;
@@ -1099,16 +1082,13 @@ impl Walrus {
                 }
 
                 // Deserialize metadata
-                let mut aligned = AlignedVec::with_capacity(meta_len);
-                aligned.extend_from_slice(&buffer[buf_offset + 2..buf_offset + 2 + meta_len]);
-
-                let archived = unsafe { rkyv::archived_root::<Metadata>(&aligned[..]) };
-                let meta: Metadata = match archived.deserialize(&mut rkyv::Infallible) {
-                    Ok(m) => m,
-                    Err(_) => {
-                        break; // Parse error - stop
-                    }
-                };
+                let meta: Metadata =
+                    match decode_metadata(&buffer[buf_offset + 2..buf_offset + 2 + meta_len]) {
+                        Some(m) => m,
+                        None => {
+                            break; // Parse error - stop
+                        }
+                    };
 
                 let data_size = meta.read_size;
                 let entry_consumed = PREFIX_META_SIZE + data_size;
